@@ -79,6 +79,8 @@ ids('C17', {1701: 'len() > capacity() under inconsistent Eq', 1702: 'iteration c
 ids('C02', {611: '', 605: '', 1303: ''})
 ids('C12', {433: 'get_key_value exposes a key object that is not the stored one', 611: 'iteration exposes a key object that is not the stored one', 605: 'consuming iteration exposes objects that are not the stored ones', 207: '', 423: '', 402: '', 452: ''})
 ids('C19 C06', {1901: 'rendered length differs', 1902: 'rendered bytes differ', 1903: 'formatting returned Err', 1904: 'container changed by formatting', 202: ''})
+ids('C20', {2001: 'announced length != len()', 2002: 'number of emitted entries != len()', 2003: 'decoded container differs from the original',
+            2004: 'serialisation or deserialisation failed', 811: 'container changed / decoded contents differ', 100: ''})
 ids('C06', {804: 'set-algebra item outside the left operand', 1303: 'get_disjoint_mut reference outside the map', 501: 'returned reference points outside the container value'})
 
 # engine-level result classes that count for every property whose harness shows them
@@ -159,8 +161,11 @@ fam('c19_map c19_set', 'g_fmt', [(n, w) for n in (0, 1, 2) for w in (0, 1, 2)], 
 fam('c19_map_iters', 'g_fmt', [(1, w) for w in range(9)], [(n, w) for n in (2, 3) for w in range(9)], lto=True, unwind=lambda c: 8)
 fam('c19_set_iters', 'g_fmt', [(1, 1, w) for w in range(3)], [(1, 1, 3)] + [(n, m, w) for (n, m) in ((2, 1), (2, 2)) for w in range(4)], lto=True, unwind=lambda c: 8)   # w=3 (symmetric_difference): 6 min -> thorough
 
+fam('c20_bincode_map c20_bincode_set', 'g_serde', [(0, 0), (1, 1), (2, 2), (3, 3), (2, 3), (1, 3)], [(4, 4), (3, 5)], unwind=lambda c: 12)
+
 # --------------------------------------------------------------------------------------- properties
 PROPS = {
+    'C20': dict(fams='c20_bincode_map c20_bincode_set'),
     'C19': dict(fams='c19_map c19_set c19_map_iters c19_set_iters'),
     'C02': dict(fams='c01_insert c01_insert_kv c01_checked_insert c01_lookup c01_remove c01_remove_entry c01_retain c01_clear c01_drain_all '
                      'c10_into_iter c10_into_keys c10_into_values c10_set_into_iter c10_drain c10_set_drain '
